@@ -114,17 +114,28 @@ func compRender(it c01.Item, pos int) []byte {
 }
 
 func doComp(e *c01.Emitter, codes []string, fault string, class string) {
+	if c01.Aborted() {
+		return
+	}
 	var script []c01.Item
 	for _, c := range codes {
 		script = append(script, compItem(c))
 	}
 	// `<fault>.<kind>`: the kind of context that is done (see c01.MakeCtx)
-	ctxKind := byte(0)
+	// and / or (upper case) the kind of error value a failing operation returns (c01.ErrKinds)
+	ctxKind, errKind := byte(0), byte(0)
 	bare := fault
-	if i := strings.Index(fault, "."); i >= 0 && i+1 < len(fault) {
-		bare, ctxKind = fault[:i], fault[i+1]
+	if i := strings.Index(fault, "."); i >= 0 {
+		for _, ch := range []byte(fault[i+1:]) {
+			if ch >= 'A' && ch <= 'Z' {
+				errKind = ch
+			} else {
+				ctxKind = ch
+			}
+		}
+		bare = fault[:i]
 	}
-	cs := c01.Case{Script: script, Fault: bare, Ctx: ctxKind, Render: compRender,
+	cs := c01.Case{Script: script, Fault: bare, Ctx: ctxKind, ErrKind: errKind, Render: compRender,
 		Custom: func(ctx context.Context, c net.Conn) (*xmpp.Session, error) {
 			return component.NewSession(ctx, jid.MustParse("comp.example.net"), []byte("secret"), c)
 		}}
@@ -197,6 +208,9 @@ func runComponent(e *c01.Emitter) {
 		for k := 0; k <= ops; k++ {
 			doComp(e, good, fmt.Sprint(k), "fault")
 			doComp(e, good, fmt.Sprint(k, "+"), "fault")
+			for _, ek := range errKindsFor(r, k) {
+				doComp(e, good, fmt.Sprintf("%d.%c", k, ek), "fault")
+			}
 		}
 		for _, suffix := range []string{"", ".d", ".p", ".n"} {
 			// a deadline that really expires costs real time: shortest handshakes only in the quick tier
